@@ -8,8 +8,15 @@ import clustergen
 ID = "C19"
 DRIVER = "node"
 MODEL_FILES = ["Model/Base.v", "Model/Parse.v", "Model/Node.v", "Model/Sched.v", "Model/Cluster.v"]
-THEOREMS = ["C19_newer_never_refused", "C19_newer_reply_value", "C19_newer_apply", "C19_tombstone_reply_refuted", "C19_sched_resolving_set_succeeds", "C19_sched_newer_set_release", "C19_sched_newer_resolving_release", "C19_sched_newer_set_answered", "C19_sched_newer_version_grows", "C19_sched_newer_version_grows_inv", "C19_newer_incoming_wins", "C19_newer_opps_below_inv", "C19_newer_keep_old_without_invariant", "C19_newer_replicas_agree", "C19_newer_replicas_replies", "C19_newer_refused_replies_differ", "C19_newer_last_write_wins", "C19_newer_last_write_wins_bounded", "C19_newer_last_write_wins_replicas", "C19_newer_run_bounded", "C19_newer_primary_to_secondary", "C19_newer_primary_queues", "C19_newer_replicas_example"]
+THEOREMS = ["C19_newer_never_refused", "C19_newer_reply_value", "C19_newer_apply", "C19_tombstone_reply_refuted", "C19_sched_resolving_set_succeeds", "C19_sched_newer_set_release", "C19_sched_newer_resolving_release", "C19_sched_newer_set_answered", "C19_sched_newer_version_grows", "C19_sched_newer_version_grows_inv", "C19_newer_incoming_wins", "C19_newer_opps_below_inv", "C19_newer_keep_old_without_invariant", "C19_newer_replicas_agree", "C19_newer_replicas_replies", "C19_newer_refused_replies_differ", "C19_newer_last_write_wins", "C19_newer_last_write_wins_bounded", "C19_newer_last_write_wins_replicas", "C19_newer_run_bounded", "C19_newer_primary_to_secondary", "C19_newer_primary_queues", "C19_newer_replicas_example", "C19_resolving_write_unchecked", "C19_newer_resolution_overwrites", "C19_newer_resolution_restamps", "C19_newer_new_key_all_schedules", "C19_newer_existing_key_count", "C19_newer_existing_key_all_schedules"]
 STRENGTH = {t: "proof-unbounded" for t in THEOREMS}
+for _t in ("C19_tombstone_reply_refuted", "C19_newer_keep_old_without_invariant", "C19_newer_refused_replies_differ"):
+    STRENGTH[_t] = "witness by vm_compute (kept visible)"
+for _t in ("C19_newer_resolution_overwrites", "C19_newer_resolution_restamps"):
+    STRENGTH[_t] = "refuted (known finding, witness by vm_compute)"
+for _t in ("C19_newer_new_key_all_schedules", "C19_newer_existing_key_count", "C19_newer_existing_key_all_schedules"):
+    STRENGTH[_t] = "finite domain (one program, all 252 interleavings), decided by vm_compute; the bound is in the statement"
+STRENGTH["C19_newer_replicas_example"] = "example (non-vacuity)"
 RULE = ("exhaustive sequences (length <= 4 quick / 5 thorough) of plain and versioned writes (versions -1..3) to keys of a "
         "'newer' database and of the administrative database, with a watcher, remove and snapshot+flush mixed in; seeded random "
         "sequences on two keys with versions below/at/above the current one; family p*: two clients under enumerated lock-level "
